@@ -48,6 +48,8 @@ type quotaCfg struct {
 	max        int64
 	win        int64 // ns
 	gh         int   // group-by header index, -1 = none
+	cc         int   // counter-value header index (fixed_window_custom_counter), -1 = fixed_window
+	pct        int   // allocation_percentage child (max/win/gh/cc copied from the parent by the loader), -1 = none
 }
 
 func parseNat(s string) (int64, bool) {
@@ -86,13 +88,30 @@ func kvOpt(w []string, k string) (int64, bool) {
 func parseQuota(w []string) (quotaCfg, bool) {
 	id, ok1 := kvI(w, "id")
 	par, ok2 := kvOpt(w, "parent")
+	if !(ok1 && ok2) {
+		return quotaCfg{}, false
+	}
+	if _, has := proto.KV(w, "pct"); has { // percentage child: `quota id= parent= pct=`
+		pct, ok := kvI(w, "pct")
+		if !ok {
+			return quotaCfg{}, false
+		}
+		return quotaCfg{id: int(id), parent: int(par), gh: -1, cc: -1, pct: int(pct)}, true
+	}
 	mx, ok3 := kvI(w, "max")
 	win, ok4 := kvI(w, "win")
 	gh, ok5 := kvOpt(w, "gh")
-	if !(ok1 && ok2 && ok3 && ok4 && ok5) {
+	cc := int64(-1)
+	if _, has := proto.KV(w, "cc"); has {
+		var ok bool
+		if cc, ok = kvOpt(w, "cc"); !ok {
+			return quotaCfg{}, false
+		}
+	}
+	if !(ok3 && ok4 && ok5) {
 		return quotaCfg{}, false
 	}
-	return quotaCfg{id: int(id), parent: int(par), max: mx, win: win, gh: int(gh)}, true
+	return quotaCfg{id: int(id), parent: int(par), max: mx, win: win, gh: int(gh), cc: int(cc), pct: -1}, true
 }
 
 func windowYAML(win int64) (int64, string) {
@@ -118,10 +137,21 @@ func quotaYAML(qs []quotaCfg) string {
 		} else {
 			fmt.Fprintf(&b, "    filter:\n      url: %s/*\n", host)
 		}
+		if q.pct >= 0 {
+			fmt.Fprintf(&b, "    strategy:\n      allocation_percentage: %d\n", q.pct)
+			return
+		}
 		iv, unit := windowYAML(q.win)
-		fmt.Fprintf(&b, "    strategy:\n      fixed_window:\n        max: %d\n        interval: %d\n        interval_unit: %s\n", q.max, iv, unit)
+		kind := "fixed_window"
+		if q.cc >= 0 {
+			kind = "fixed_window_custom_counter"
+		}
+		fmt.Fprintf(&b, "    strategy:\n      %s:\n        max: %d\n        interval: %d\n        interval_unit: %s\n", kind, q.max, iv, unit)
 		if q.gh >= 0 {
 			fmt.Fprintf(&b, "        group_by_header: x-g%d\n", q.gh)
+		}
+		if q.cc >= 0 {
+			fmt.Fprintf(&b, "        counter_value_path: '$.request.headers[\"x-c%d\"]'\n", q.cc)
 		}
 	}
 	b.WriteString("quotas:\n")
@@ -304,6 +334,24 @@ func headers(spec string) (map[string]string, bool) {
 
 func mustNat(s string) int64 { n, _ := parseNat(s); return n }
 
+// addCosts parses `i:enc,i:enc` (enc = percent-encoded raw header value) into headers x-c<i>.
+func addCosts(h map[string]string, spec string) bool {
+	if spec == "-" {
+		return true
+	}
+	for _, kv := range strings.Split(spec, ",") {
+		p := strings.Split(kv, ":")
+		if len(p) != 2 {
+			return false
+		}
+		if _, ok := parseNat(p[0]); !ok {
+			return false
+		}
+		h["x-c"+strconv.FormatInt(mustNat(p[0]), 10)] = proto.Dec(p[1])
+	}
+	return true
+}
+
 func apiStream(q int, r string, hdrs map[string]string) publictypes.APIStreamI {
 	path := fmt.Sprintf("/f%d", q)
 	return streamtypes.NewRequestAPIStream(messages.OnRequest{
@@ -327,6 +375,7 @@ func exec(c proto.Case, o *proto.Out) []string {
 	}()
 	admits, refuses := 0, 0
 	seenArr := map[string]bool{}
+	arrHdr := map[string]string{}
 	irregular := false
 	var arrivals []int64
 	for i, op := range c.Ops {
@@ -392,6 +441,9 @@ func exec(c proto.Case, o *proto.Out) []string {
 			if ok4 {
 				hd, ok4 = headers(hs)
 			}
+			if cs, has := proto.KV(f, "costs"); has && ok4 {
+				ok4 = addCosts(hd, cs)
+			}
 			if !ok3 || !ok4 {
 				outs[i] = "bad-op"
 				continue
@@ -409,9 +461,10 @@ func exec(c proto.Case, o *proto.Out) []string {
 					irregular = true
 				}
 				seenArr[r] = true
+				arrHdr[r] = fmt.Sprint(hd)
 				for qi := int(q); qi >= 0 && qi < len(qs); qi = qs[qi].parent {
 					for _, t0 := range arrivals {
-						switch d := t - (t0/int64(time.Second))*int64(time.Second) - qs[qi].win; {
+						switch d := t - (t0/int64(time.Second))*int64(time.Second) - effWin(qs, qi); {
 						case d == 0:
 							o.Count("arrival-exactly-on-window-end")
 						case d == -1 || d == 1:
@@ -420,6 +473,11 @@ func exec(c proto.Case, o *proto.Out) []string {
 					}
 				}
 				arrivals = append(arrivals, t)
+			}
+			if f[0] == "allowed" || f[0] == "dec" {
+				if ah, ok := arrHdr[r]; ok && ah != fmt.Sprint(hd) {
+					irregular = true // a call of the request with other headers than its arrival
+				}
 			}
 			if w.level == 2 {
 				if f[0] != "req" {
@@ -500,8 +558,17 @@ func exec(c proto.Case, o *proto.Out) []string {
 		}
 	}
 	o.Count(fmt.Sprintf("quotas-%d", len(qs)))
+	for _, q := range qs {
+		if q.pct >= 0 {
+			o.Count("quota-percentage-child")
+		} else if q.cc >= 0 {
+			o.Count("quota-custom-counter")
+		} else {
+			o.Count("quota-fixed-window")
+		}
+	}
 	if irregular {
-		o.Count("history-irregular(id-arrives-twice;diff-only)")
+		o.Count("history-irregular(id-arrives-twice-or-headers-differ;diff-only)")
 	} else {
 		o.Count("history-regular(judged)")
 	}
@@ -555,13 +622,33 @@ func doCounters(w *world, q int, f []string, t int64) string {
 	return "c=" + strings.Join(out, ",")
 }
 
+// effWin: the window of a quota (a percentage child has its parent's).
+func effWin(qs []quotaCfg, i int) int64 {
+	for i >= 0 && i < len(qs) && qs[i].pct >= 0 {
+		i = qs[i].parent
+	}
+	if i < 0 || i >= len(qs) {
+		return 0
+	}
+	return qs[i].win
+}
+
 // wellFormed mirrors Spec.C01.wellFormed (what the loader's validation admits, parents first).
 func wellFormed(qs []quotaCfg) bool {
 	if len(qs) == 0 { // an empty quota file is rejected by the loader ("quota part is missing")
 		return false
 	}
 	for i, q := range qs {
-		if q.max < 1 || q.win < 1 || q.win%int64(time.Second) != 0 || q.parent >= i {
+		if q.parent >= i {
+			return false
+		}
+		if q.pct >= 0 { // allocation_percentage: validate gt=-1,lte=100; 0 means "no strategy" and fails to load
+			if q.parent < 0 || q.pct < 1 || q.pct > 100 {
+				return false
+			}
+			continue
+		}
+		if q.max < 1 || q.win < 1 || q.win%int64(time.Second) != 0 {
 			return false
 		}
 	}
